@@ -28,6 +28,9 @@ pub struct BlockObs {
   pub reads: Vec<u16>,
   pub io_digest: u64,
   pub trace_overflow: bool,
+  /// translated run only: bit i set = callee-saved host register i (r12, r13, r14, r15, rbx, rsp)
+  /// did not come back as it went in
+  pub host_clobber: u8,
 }
 
 pub struct Pristine {
@@ -57,6 +60,8 @@ pub struct JitWorld {
   /// value placed in the upper 48 bits of the host's callee-saved registers r12/r13 before
   /// translated code is entered (None = call through CodeCache::call and leave them to chance)
   pub host_garbage: Option<u64>,
+  /// value of `Registers.cycles` on entry to either engine (5 after an interrupt dispatch)
+  pub entry_cycles: u32,
   pub garbage_calls: u64,
   pub plain_calls: u64,
 }
@@ -88,6 +93,7 @@ impl JitWorld {
       base_io: quiescent_io,
       base_bank: None,
       host_garbage: Some(1),
+      entry_cycles: 0,
       garbage_calls: 0,
       plain_calls: 0,
     }
@@ -126,6 +132,7 @@ impl JitWorld {
       base_io: quiescent_io,
       base_bank: Some(bank),
       host_garbage: Some(1),
+      entry_cycles: 0,
       garbage_calls: 0,
       plain_calls: 0,
     }
@@ -196,7 +203,7 @@ impl JitWorld {
     r.hl = c.hl() as u32;
     r.sp = c.sp as u32;
     r.ip = c.pc as u32;
-    r.cycles = 0;
+    r.cycles = self.entry_cycles;
   }
 
   fn io_digest(&self) -> u64 {
@@ -307,11 +314,14 @@ impl JitWorld {
       },
       None => None,
     };
+    let mut host_clobber = 0u8;
     world::trace_start();
     let st = match entry {
       Some((prologue, epilogue, g)) => {
         self.garbage_calls += 1;
-        call_with_host_state(cache.get_memory_start_address(), prologue, epilogue, addr, regs, g)
+        let (st, clobber) = call_with_host_state(cache.get_memory_start_address(), prologue, epilogue, addr, regs, g);
+        host_clobber = clobber;
+        st
       },
       None => {
         self.plain_calls += 1;
@@ -319,7 +329,9 @@ impl JitWorld {
       },
     };
     let (trace, ovf) = world::trace_stop();
-    self.observe(Ok(st), trace, ovf)
+    let mut o = self.observe(Ok(st), trace, ovf);
+    o.host_clobber = host_clobber;
+    o
   }
 
   /// Undo everything the last engine run wrote, then re-apply the active pokes.
@@ -431,11 +443,12 @@ fn locate_entry(cache: &CodeCache) -> Option<(usize, usize)> {
 /// chosen values in the host's callee-saved r12/r13, whose low 16 bits the prologue overwrites
 /// with SP/PC, and stale values in rax, rbx, rcx, r10, r11, r14 and r15.  Translated code must
 /// not let anything the host happened to leave in a register influence the guest.
-fn call_with_host_state(start: usize, prologue: usize, epilogue: usize, block: usize, regs: *mut Registers, garbage: u64) -> u8 {
+fn call_with_host_state(start: usize, prologue: usize, epilogue: usize, block: usize, regs: *mut Registers, garbage: u64) -> (u8, u8) {
   let func = start + prologue;
   let blk = start + block;
   let epi = start + epilogue;
   let ret: u64;
+  let clobber: u64;
   unsafe {
     std::arch::asm!(
       "push rbp",
@@ -446,7 +459,7 @@ fn call_with_host_state(start: usize, prologue: usize, epilogue: usize, block: u
       "push r14",
       "push r15",
       "push rbx",
-      "sub rsp, 8",
+      "push r9",
       "mov r12, r9",
       "mov r13, r9",
       // the other registers the prologue loads or clears, and the scratch registers of the
@@ -460,7 +473,43 @@ fn call_with_host_state(start: usize, prologue: usize, epilogue: usize, block: u
       "mov r10, r14",
       "mov r11, r14",
       "call r8",
-      "add rsp, 8",
+      // what the System V ABI promises the Rust caller: r12-r15, rbx, rbp and rsp come back as
+      // they went in (bit i of r10 = register i differs)
+      "pop r9",
+      "xor r10d, r10d",
+      "cmp r12, r9",
+      "setne r10b",
+      "xor ecx, ecx",
+      "cmp r13, r9",
+      "setne cl",
+      "shl ecx, 1",
+      "or r10d, ecx",
+      "mov r11, r9",
+      "or r11, 0x5A5A",
+      "xor ecx, ecx",
+      "cmp r14, r11",
+      "setne cl",
+      "shl ecx, 2",
+      "or r10d, ecx",
+      "xor ecx, ecx",
+      "cmp r15, r11",
+      "setne cl",
+      "shl ecx, 3",
+      "or r10d, ecx",
+      "xor ecx, ecx",
+      "cmp rbx, r11",
+      "setne cl",
+      "shl ecx, 4",
+      "or r10d, ecx",
+      "mov r11, rbp",
+      "and r11, -16",
+      "sub r11, 40",
+      "xor ecx, ecx",
+      "cmp rsp, r11",
+      "setne cl",
+      "shl ecx, 5",
+      "or r10d, ecx",
+      "mov rsp, r11",
       "pop rbx",
       "pop r15",
       "pop r14",
@@ -475,9 +524,9 @@ fn call_with_host_state(start: usize, prologue: usize, epilogue: usize, block: u
       inout("rdx") epi => _,
       out("rax") ret,
       out("rcx") _,
-      out("r10") _,
+      out("r10") clobber,
       out("r11") _,
     );
   }
-  ret as u8
+  (ret as u8, clobber as u8)
 }
